@@ -322,6 +322,20 @@ def rule_dispatch_scheduled(ctx: Ctx) -> None:
                       "await pool.wait() (no timeout) follows the push on every path",
                       "a second job (or the next event) can start before the previous job finished",
                       detail={"path": C.fmt_path(path) if path else []})
+            # the queue head is re-read between two consecutive job starts (jobs may schedule jobs)
+            def has_call(n, suffix):
+                return any(isinstance(x, ast.Call) and (A.call_name(x) or "").endswith(suffix)
+                           for e in C.exprs_of(n) for x in C.walk_shallow(e))
+            all_push = {n for c2 in pushes for n in g.nodes_for(c2)}
+            p_nopeek = g.path_avoiding(pn, lambda n: n in all_push,
+                                       lambda n: has_call(n, "_scheduler_queue.peek_next_event_dt"), C.NO_EXC)
+            p_nopop = g.path_avoiding(pn, lambda n: n in all_push, lambda n: has_call(n, "_scheduler_queue.pop"), C.NO_EXC)
+            badp = p_nopeek or p_nopop
+            ctx.check(badp is None, "C13.3", "queue is re-examined after every job (jobs scheduled by jobs run in order)", fn, pu,
+                      "peek + pop between consecutive job starts",
+                      "the next job is started from a snapshot taken before the previous job ran: a job scheduled by a job "
+                      "for a time <= the current bound runs late (after later jobs / events) or never",
+                      detail={"path": C.fmt_path(badp) if badp else []})
             # clock: a store to self._last_dt guarded by '> self._last_dt' lies between pop and push
             st = [s for s in A.stores(fn) if isinstance(s.target, ast.Attribute) and s.target.attr == "_last_dt"]
             okclock = False
